@@ -51,6 +51,9 @@ CFG = {
         "Leptos.Hydrate.compile_spec",
         "Leptos.Hydrate.compileB_spec",
         "Leptos.Hydrate.C05_nested_suspend_witness",
+        "Leptos.Hydrate.C05_boundary_witness",
+        "Leptos.Hydrate.C05_error_boundary_position_witness",
+        "Leptos.Hydrate.pending_spec",
         "Leptos.Hydrate.compile_inOrd",
         "Leptos.Hydrate.compile_oooWf",
         "Leptos.Hydrate.compile_doc",
@@ -130,6 +133,10 @@ CFG = {
             "in 7 completion orders x 5 containers x 4 value shapes; keyed lists with suspending items in all 6 completion orders x 3 positions x 3 forms; "
             "a Suspend inside the value of a Suspend (7 value shapes incl. two inner ones and keyed suspending items) x 3 containers x sibling before x sibling after x 7 completion "
             "orders (outer before inner, inner before outer, together, either ready at render time, rest) x 3 forms; Fragment items that suspend (op `sfrag`); "
+            "the leptos wrapper components: <ErrorBoundary> (Ok children) / <Show when=true|false> / <ErrorBoundary> inside <Show> x 8 shapes of the children x sibling before x sibling after x "
+            "top level / inside an element, <For> empty / 3 items x sibling before x sibling after, <Suspense> / <Transition> x 5 containers x sibling before x sibling after x 7 shapes x both "
+            "stream forms, 1 random node in 40 an <ErrorBoundary> / <Show> / <For>, 1 random `shyd` case in 3 with a boundary around a top-level view (until hooks/fix-c05-5.patch is in /repo, "
+            "EB_WRITE_BACK_FIXED = false: no <ErrorBoundary> whose children change the after-a-string state of the position); "
             "the `each` source of a keyed list: 9 iterator kinds (Vec, array, range-map, filter, from_fn, flat_map, chain, once-chain, Option: exact size hints and "
             "size hints with lower bound 0) x 0 / 1 / 3 items x 4 positions x element / string items, and 2 keyed lists in 3 of the random cases; (with SUSPEND_POSITION_CASES = false in the harness, until class suspend-position is listed, inputs whose "
             "pending Suspend leaves another Position than the server guesses are skipped); "
@@ -150,6 +157,10 @@ CFG = {
         "Suspend (tachys/src/reactive_graph/suspense.rs): to_html_with_buf, to_html_async_with_buf::<false|true> (now_or_never, next_id, push_async / push_fallback + "
         "push_async_out_of_order, the Position each branch leaves), resolve, hydrate / build (= the value's), rebuild (a task); Keyed / Vec / tuple / array / StaticVec "
         "to_html_async_with_buf and resolve (items in list order)",
+        "the leptos wrapper components (hx-c05 builds them with view!): <ErrorBoundary> with Ok children, <Show>, <For> = AnyViews that a rebuild always replaces, "
+        "transparent for to_html / hydrate / build (ErrorBoundaryView as repaired by hooks/fix-c05-5.patch; `htmlEbOld` = before); <Suspense> / <Transition> with children without "
+        "asynchronous parts (fallback ()): hydrate / build = the children + one detached fallback node, to_html_async_with_buf = the two branches of a pending Suspend on a "
+        "future that needs one executor turn (Stream.Fut.tick; the harness drains the executor between polls)",
         "expressed through the constructor they share to_html / hydrate / rebuild with (lean/Driver/C05.lean): InertElement (= the static element it was "
         "rendered from; C05_inert_walk), keyed (= Vec of the item views), Result (= Option), u32 / Arc<str> / Cow<str> (= String), EitherOf3, "
         "[T; N] (= tuple), OwnedView (transparent), closures (an AnyView that is always replaced on rebuild)",
@@ -186,7 +197,9 @@ CFG = {
         "C05_walk_commutes_with_writes; that the DOM after settle serialises to domA is evaluated by the driver on every case",
         "not built by the harness (stated, correspondence does not cover them): Doctype (outside the HTML parser subset), Static<..> (nightly only), "
         "ViewTemplate and templates (FROM_SERVER = false), Island / IslandChildren, EitherKeepAlive, "
-        "AnyViewWithAttrs, and the views of the leptos / leptos_router / leptos_meta crates (View<T>, Unsuspend, ErrorBoundaryView, routes, meta tags); "
+        "AnyViewWithAttrs, and the other views of the leptos / leptos_router / leptos_meta crates (Unsuspend, routes, meta tags, <Await>, <ForEnumerate>, <AnimatedShow>); "
+        "<ErrorBoundary> is exercised with Ok children only (the error path needs the errors serialized through a shared context); a <Suspense> / <Transition> holds no Suspend / resource "
+        "(C07) and is not nested; sync to_html() / resolve() of a boundary print its fallback by design and are not hydrated; "
         "a keyed list with string items is rebuilt only by changes at its end (a moved text node leaves its `<!>` separator behind, which the "
         "unkeyed model rebuild does not reproduce comment for comment)",
         "StaticVec / Fragment is modelled only as one child of an element (children pre.., Fragment(items), post..): F-C05-3 and its repair",
